@@ -109,7 +109,9 @@ func c12Monitor(st *engine.Step) {
 			}
 		}
 		if tag.Kind == "sms_validate" {
-			for i := len(pre.Truth.SMSLog) - 1; i >= 0; i-- {
+			// (only where the request really completes a login, i.e. the session gets a new user: a session that is
+			// already logged in re-validates as its own user, with a code sent to that user's own number)
+			for i := len(pre.Truth.SMSLog) - 1; i >= 0 && o.UIDAfter() != o.UIDBefore(); i-- {
 				if m := pre.Truth.SMSLog[i]; m.Code == tag.Secret && m.Browser == o.Req.Browser {
 					if m.For != x {
 						st.Report(engine.Violation{Rule: "C12/sms-code-of-another-account", Detail: fmt.Sprintf("the login of %s was completed with an SMS code that was sent for %s's login (to %s)", x, m.For, m.Number)})
